@@ -106,7 +106,7 @@ func (c08) Gen(dt *drv.T, c *Ctx) any {
 	}
 	cs.Case.Prog = p
 	cs.Case.Cfg = genCheckCfg(dt, "TestC08", 40)
-	cs.Case.Cfg.Steps = pick(dt, "steps", 1, 2, 5, 10, 30, 60)
+	cs.Case.Cfg.Steps = pick(dt, "steps", -1, 1, 1, 2, 5, 10, 30, 60) // -1: -rapid.steps=0
 	cs.Case.Cfg.NoFailFile = true
 	cs.Case.Cfg.ShrinkNS = pick(dt, "shrink", int64(0), 5e6, 1e8)
 	if chance(dt, "viafuzz", 30) {
